@@ -11,6 +11,11 @@ var commonAssumptions = []string{
 }
 
 func init() {
+	property(&Property{ID: "C12",
+		Rules: []string{"P.strip", "P.flag", "O1.pipeline"},
+		Explanation: "Decides where presence is stripped and where the flag comes from, not the equality of presence maps over histories. Decided: with DisablePresence set every path to the log append passes the strip, whose result is what is pushed; the strip drops presence-only changes and clears presence on mixed ones; pulled changes go out with presence only for documents that allow it, cleared on a copy otherwise; snapshots (pulled and stored) carry no presence for presenceless documents (P.strip); every PushPullOptions takes the flag from the persisted DocInfo; presence rides in the ordered change and is applied for the author, deleted on Clear; the server-side detach clears presence first (P.flag); validation ≺ strip ≺ push (O1.pipeline). Not decided: convergence of presence maps (it follows the change order, C04), the client SDK's own detach.",
+		Assumptions: commonAssumptions,
+	})
 	property(&Property{ID: "C10",
 		Rules: []string{"L4c", "CMP.order", "DB.compact", "O3.epoch", "L8", "A4.log"},
 		Explanation: "Decides the exclusion, ordering and epoch structure of compaction. Decided: Compact/Purge run under the exclusive document lock and everything that reads the log to write derived state (rebuilds that populate the snapshot cache, snapshot rows, revisions) holds the document lock (L4c); the reset happens only for a non-attached document or under force, never after a content mismatch, after cache invalidation, conditional on the head the rebuild saw (CMP.order); purge, compacted change, epoch+1 and compare-and-set are one committed transaction (DB.compact, L8); only packs.Compact and documents.CreateDocument reset the log (A4.log); stale-epoch changes never reach the log, stale pulls return ErrEpochMismatch, the detach/remove exception is taken only for that sentinel (O3.epoch). Not decided: that the YSON rebuild preserves content for every document (C18) — known finding F19 shows it does not for dedup counters.",
